@@ -21,7 +21,7 @@ LEVEL_TEXT = ("Clouds of 10^4-10^6 particles are stepped 1-50 times by the real 
               "and two runs must be identical.")
 LEVEL_NOTE = "Restated as bounded statistics: moments and independence only (no normality test). A 6-sigma band with 1e5 particles is +-2.7 % on the variance: false alarms at the 1e-8 level per test, factor-2/unit errors far outside."
 RULE = ("case = (D, Dz, dt, dx, dy, steps, cloud size, seed). Non-trivial: D > 0 or Dz > 0 with at least 2 steps (independence across steps observable); distinct by parameters.")
-MANDATORY = ["time_step_longer_than_a_day", "restarted_run_step_independence_tests", "restarted_run_total_variance_tests", "records_of_a_later_configuration_without_coefficients", "e2e_version_1_configuration", "e2e_row_dependent_spacing_subgrid_off_diagonal", "coefficients_of_1e-8_or_less", "few_particle_series_tests", "particles_in_state_1", "particles_in_state_2", "horizontal_variance_tests", "vertical_variance_tests", "mean_tests", "cross_covariance_tests", "lag1_tests", "neighbour_tests", "growth_tests",
+MANDATORY = ["e2e_coefficient_written_as_a_whole_number", "e2e_grid_module_ROMS2", "time_step_longer_than_a_day", "restarted_run_step_independence_tests", "restarted_run_total_variance_tests", "records_of_a_later_configuration_without_coefficients", "e2e_version_1_configuration", "e2e_row_dependent_spacing_subgrid_off_diagonal", "coefficients_of_1e-8_or_less", "few_particle_series_tests", "particles_in_state_1", "particles_in_state_2", "horizontal_variance_tests", "vertical_variance_tests", "mean_tests", "cross_covariance_tests", "lag1_tests", "neighbour_tests", "growth_tests",
              "zero_diffusion_deterministic", "anisotropic_grid", "rng_seeded_by_harness", "e2e_variance_tests", "horizontal_vertical_covariance_tests", "varying_metric_variance_tests", "vertical_advection_with_diffusion_tests"]
 ASSUMPTIONS = ["still water, uniform metric, no boundaries reached (grid and water column far larger than the cloud)"]
 TIMEOUT = {"quick": 900, "thorough": 3400}
@@ -195,6 +195,8 @@ def run_e2e(case: dict[str, Any], wd: Path) -> dict[str, Any]:
     from vmon.scenario import all_records, read_outputs, run_scenario  # noqa: PLC0415
 
     D, dt, dx, dy, steps, n = case["D"], case["dt"], case["dx"], case["dy"], case["steps"], case["n"]
+    if case["idx"] % 6 == 0:
+        dy = dx  # these cases run with ladim.ROMS2, whose metric() is written for conformal grids (one spacing for both directions)
     V: list = []
     sit: dict[str, int] = {}
     cnt: dict[str, int] = {}
@@ -213,8 +215,18 @@ def run_e2e(case: dict[str, Any], wd: Path) -> dict[str, Any]:
                release=dict(columns=["release_time", "mult", "X", "Y", "Z"], rows=[[C.T0, n, 30.0, 30.0, 5.0]], header=True), output=dict(period=dt))
     v1mode = bool(case["idx"] % 3 == 2)
     outfile: list = []
+    roms2 = bool(case["idx"] % 6 == 0 and not eta)  # the documented alternative grid/forcing module (adaptive subgrid), which has its own metric()
+    if case["idx"] % 6 == 4 and not eta:
+        # the coefficient written without a decimal point (diffusion: 12), as a user would in a YAML/TOML file
+        D = int(min(max(1, round(D)), 0.5 * (0.7 * min(dx, dy)) ** 2 / dt)) or 1
+        run["diffusion"] = D
+        sit["e2e_coefficient_written_as_a_whole_number"] = 1
 
     def tweak(conf):
+        if roms2:
+            conf["grid"]["module"] = "ladim.ROMS2"
+            conf["forcing"]["module"] = "ladim.ROMS2"
+            conf["grid"].pop("subgrid", None)
         if v1mode:  # the same run described by a legacy (version 1) configuration file: the coefficient sits in numerics.diffusion
             from vmon.scenario import to_v1  # noqa: PLC0415
 
@@ -226,6 +238,8 @@ def run_e2e(case: dict[str, Any], wd: Path) -> dict[str, Any]:
     with Hooks() as hk:
         hk.wrap(Tracker, "__init__", None, lambda tok, res, self, *a, **k: setattr(self, "rng", np.random.default_rng(case["rngseed"])))
         res, conf, world = run_scenario(dict(world=w, run=run), wd, tweak=tweak)
+    if roms2:
+        sit["e2e_grid_module_ROMS2"] = 1
     if v1mode:
         res.outputs = [Path(outfile[0])]
         sit["e2e_version_1_configuration"] = 1
@@ -238,6 +252,11 @@ def run_e2e(case: dict[str, Any], wd: Path) -> dict[str, Any]:
         if eta and k > 1:
             break
         if len(r.pid) != n:
+            sig_ = float(np.sqrt(2 * D * dt * k)) / min(dx, dy)
+            if sig_ * 8 < 15.0:
+                # the nearest open boundary is more than 15 cells and more than 8 standard deviations away: nobody can have got there
+                V.append(C.viol(f"end to end: after {k} steps only {len(r.pid)} of {n} particles are left in a cloud whose random walk has a standard deviation of {sig_:.3g} cells "
+                                f"(released 18 cells or more from the open boundary)", **desc))
             break  # somebody reached the boundary: the cloud is no longer a free random walk
         for name, d in (("X", dx), ("Y", dy)):
             x = np.asarray(r.vars[name]) - 30.0
